@@ -1917,10 +1917,7 @@ class SpaceUpdater(SharedSpaceOperations):
             raise ValueError("Space '%s' not found" % node)
 
         # Remove node and its child tree
-        nodes_removed = list()
-        for child in self._graph.visit_tree(node):
-            nodes_removed.append(child)
-            self._remove_hook(self._graph, child)
+        nodes_removed = list(self._graph.visit_tree(node))
 
         # Re-derive the sub spaces of the deleted space and of its descendants,
         # bases first
@@ -1928,12 +1925,23 @@ class SpaceUpdater(SharedSpaceOperations):
         for n in nodes_removed:
             affected.update(nx.descendants(self.manager._graph, n))
         affected.difference_update(nodes_removed)
-        for v in nx.topological_sort(self.manager._graph.subgraph(affected)):
+        affected = list(
+            nx.topological_sort(self.manager._graph.subgraph(affected)))
+
+        self._graph.remove_nodes_from(nodes_removed)
+
+        # Reject the deletion before anything is deleted or re-derived
+        # if a sub space is left without a linearisation
+        for v in affected:
+            self._graph.get_mro(v)
+
+        for child in nodes_removed:
+            self._remove_hook(self._graph, child)
+
+        for v in affected:
             self._instructions.append(
                 Instruction(self._update_derived_space, (v,))
             )
-
-        self._graph.remove_nodes_from(nodes_removed)
 
         self._instructions.execute()
         self._update_manager()
